@@ -3,11 +3,49 @@ Line-protocol driver: `driver <Cxx>` reads one JSON object `{"input":‚Ä¶,"obs":‚
 line on stdin and writes one verdict per line on stdout (see `judgeWith`).
 Anything that cannot be decoded yields `{"bad-op": reason}` - never a default value.
 -/
+import NotationModel.Model.C01
+import NotationModel.Model.C02
+import NotationModel.Model.C03
+import NotationModel.Model.C04
+import NotationModel.Model.C05
+import NotationModel.Model.C06
+import NotationModel.Model.C07
+import NotationModel.Model.C08
+import NotationModel.Model.C09
 import NotationModel.Model.C10
+import NotationModel.Model.C11
+import NotationModel.Model.C12
+import NotationModel.Model.C13
+import NotationModel.Model.C14
+import NotationModel.Model.C15
+import NotationModel.Model.C16
+import NotationModel.Model.C17
+import NotationModel.Model.C18
+import NotationModel.Model.C19
+import NotationModel.Model.C20
 open Lean
 
 def handlers : List (String √ó (Json ‚Üí Except String Json)) :=
-  [ ("C10", NotationModel.C10.judge) ]
+  [ ("C01", NotationModel.C01.judge),
+    ("C02", NotationModel.C02.judge),
+    ("C03", NotationModel.C03.judge),
+    ("C04", NotationModel.C04.judge),
+    ("C05", NotationModel.C05.judge),
+    ("C06", NotationModel.C06.judge),
+    ("C07", NotationModel.C07.judge),
+    ("C08", NotationModel.C08.judge),
+    ("C09", NotationModel.C09.judge),
+    ("C10", NotationModel.C10.judge),
+    ("C11", NotationModel.C11.judge),
+    ("C12", NotationModel.C12.judge),
+    ("C13", NotationModel.C13.judge),
+    ("C14", NotationModel.C14.judge),
+    ("C15", NotationModel.C15.judge),
+    ("C16", NotationModel.C16.judge),
+    ("C17", NotationModel.C17.judge),
+    ("C18", NotationModel.C18.judge),
+    ("C19", NotationModel.C19.judge),
+    ("C20", NotationModel.C20.judge) ]
 
 partial def loop (h : IO.FS.Stream) (out : IO.FS.Stream) (f : Json ‚Üí Except String Json) : IO Unit := do
   let line ‚Üê h.getLine
